@@ -702,19 +702,29 @@ size_t soxr_output(soxr_t p, void * out, size_t len0)
   size_t odone, odone0 = 0, olen = len0, osize, idone;
   size_t ilen = min(p->max_ilen, (size_t)ceil((double)olen *p->io_ratio));
   void const * in = out; /* Set to !=0, so that caller may leave unset. */
+  void * const out0 = out;
   bool was_flushing;
+  unsigned u;
 
   if (!p || p->error) return 0;
   if (!out && len0) {p->error = "null output buffer pointer"; return 0;}
 
   do {
+    if ((p->io_spec.otype & SOXR_SPLIT) && odone0) { /* Advance each channel: */
+      osize = soxr_datatype_size(p->io_spec.otype);
+      for (u = 0; u < p->num_channels; ++u)
+        p->channel_ptrs[u] = (char *)((soxr_bufs_t)out0)[u] + osize * odone0;
+      out = p->channel_ptrs;
+    }
     odone = soxr_output_no_callback(p, out, olen);
     odone0 += odone;
     if (odone0 == len0 || !p->input_fn || p->flushing)
       break;
 
-    osize = soxr_datatype_size(p->io_spec.otype) * p->num_channels;
-    out = (char *)out + osize * odone;
+    if (!(p->io_spec.otype & SOXR_SPLIT)) {
+      osize = soxr_datatype_size(p->io_spec.otype) * p->num_channels;
+      out = (char *)out + osize * odone;
+    }
     olen -= odone;
     idone = p->input_fn(p->input_fn_state, &in, ilen);
     was_flushing = p->flushing;
